@@ -115,6 +115,7 @@ Step ==
                 bad == Clauses({
                   <<must /\ ~raised, "C12.must-raise">>,
                   <<raised /\ ~mayS, "C12.spurious-raise">>,
+                  <<e.out = 6, "C09.hang">>,
                   <<e.out \notin {0, 3}, "C15.spurious-error">>,
                   <<raised /\ Bits(n, e.e) # {}, "C12.raise-ran">>,
                   <<ok /\ ~must /\ Bits(n, e.e) # Runs(D, S, v), "C11.setup-exec">>,
@@ -124,6 +125,20 @@ Step ==
                /\ val' = [val EXCEPT ![i] = vnew]
                /\ maxn' = IF ok THEN MaxOf(D, e) ELSE maxn
                /\ UNCHANGED <<ex, cache>>
+       [] e.op = "setupfail" ->
+            \* setup() during which the first setup node entered raises (fault injected by the harness): the call raises that
+            \* error - it neither hangs nor succeeds -, nothing is stored, and the instance can be set up afterwards
+            LET S == SetupClosure(D, None, None, None)
+                runs == Runs(D, S, v)
+                E == Bits(n, e.e)
+                bad == Clauses({
+                  <<e.out = 6, "C09.hang">>,
+                  <<runs = {} /\ (e.out # 0 \/ E # {}), "C11.rerun">>,
+                  <<runs # {} /\ e.out = 0, "C14.swallowed">>,
+                  <<runs # {} /\ e.out \notin {0, 1, 6}, "C14.internal">>,
+                  <<~(E \subseteq runs), "C11.setup-exec">>})
+            IN /\ viol' = Mark(bad \cup KeysClauses(D, e, v))
+               /\ UNCHANGED <<val, ex, cache, maxn>>
        [] e.op = "exsetup" /\ ex[e.x].st # "none" ->
             \* executor.setup(): the setup part of the executor's own selection (dag.py: DAGExecution.setup)
             LET ii == ex[e.x].i
